@@ -17,6 +17,7 @@ class SdkDriver:
         self.created_in_segment: Dict[str, int] = {}
         self.segment = 0
         self.on_top = None
+        self.seg_regs = {}           # segment -> registers that were handed to a host handle in it
         self.tmpl_mode = "concrete"
         self.tmpl_values = {}
 
@@ -97,6 +98,7 @@ class SdkDriver:
         elif op == "reg":
             self.regs[st["name"]] = conn.builder.new_register(init_value=st["init"])
             self.created_in_segment[st["name"]] = self.segment
+            self.seg_regs.setdefault(self.segment, set()).add(str(self.regs[st["name"]].reg))
         elif op == "qalloc":
             q = Qubit(conn)
             self.qubits[st["q"]] = q
@@ -124,10 +126,15 @@ class SdkDriver:
                 self.created_in_segment[t["name"]] = self.segment
                 # expose the implicit one-entry array under the same name
                 self.arrays[t["name"]] = _ArrayView(conn, f._address, 1)
+            elif t["kind"] == "reg" and t.get("reuse"):
+                q.measure(future=self.regs[t["name"]], inplace=inplace)   # measure again into an existing RegFuture handle
+                self.created_in_segment[t["name"]] = self.segment
+                self.seg_regs.setdefault(self.segment, set()).add(str(self.regs[t["name"]].reg))
             elif t["kind"] == "reg":
                 f = q.measure(inplace=inplace, store_array=False)
                 self.regs[t["name"]] = f
                 self.created_in_segment[t["name"]] = self.segment
+                self.seg_regs.setdefault(self.segment, set()).add(str(f.reg))
             else:
                 q.measure(future=self.entry(t["array"], t["idx"]), inplace=inplace)
         elif op == "add":
@@ -149,15 +156,17 @@ class SdkDriver:
                 else:
                     getattr(conn, "if_" + cond)(a, b, body)
         elif op == "loop":
+            from netqasm.lang.parsing import parse_register
+            reg = st.get("reg")
             if st["form"] == "ctx":
-                with conn.loop(st["stop"], st["start"], st["step"]) as i:
+                with conn.loop(st["stop"], st["start"], st["step"], parse_register(reg) if reg else None) as i:
                     self.vars[st["var"]] = i
                     self.block(st["body"])
             else:
                 def lbody(_conn, i):
                     self.vars[st["var"]] = i
                     self.block(st["body"])
-                conn.loop_body(lbody, st["stop"], st["start"], st["step"])
+                conn.loop_body(lbody, st["stop"], st["start"], st["step"], reg)
         elif op == "foreach":
             arr = self.arrays[st["array"]]
             if st.get("idxvar"):
@@ -174,6 +183,10 @@ class SdkDriver:
                 self.vars[st["var"]] = loop.loop_register
                 self.block(st["body"])
                 loop.set_exit_condition(ValueAtMostConstraint(self.future_of(st["exit"]["val"]), st["exit"]["atmost"]))
+                if st.get("cleanup"):
+                    def cleanup(_conn, _stmts=st["cleanup"]):
+                        self.block(_stmts)
+                    loop.set_cleanup_code(cleanup)
         else:
             raise ValueError(op)
 
